@@ -89,7 +89,86 @@ def driver_binding(c, runs):
 
 
 def deferral_glue(c):
-    c.assumptions.append("driver glue (process_restarting_outputs) binding not built yet")
+    """C11 driver glue: behaviours of Deferral.tla (machine + glue + routes arriving meanwhile) on the real glue code -
+    Global.selection_deferral, process_effects(GrSessionEstablished / GrEorReceived), the tail of PeerSession::run
+    (PeerWithdrawn), gr_selection_deferral_timer_expired, process_restarting_outputs, the tables' deferral flags."""
+    import os
+    import vf
+    import C11
+    thorough = c.tier == "thorough"
+    inp = os.path.join(vf.WORK, "C11.dgl.in")
+    outp = os.path.join(vf.WORK, "C11.dgl.out")
+    exp = []
+    nwalks = 0
+    with open(inp, "w") as f:
+        for ci, name in enumerate(["g1", "g2"] + (["g3"] if thorough else [])):
+            k = C11.CONFIGS[name]
+            d, m, cfgp = C11.materialise(name, k, "GenSpecR", ["EmitWalk"], "DeferralMC")
+            r = vf.tlc(d, m, cfgp, workers=1, timeout=900, simulate=600 if thorough else 120, depth=30, seed=c.seed * 10 + ci + 1, heap="4g")
+            walks = vf.parse_walks(r.stdout)
+            if not walks:
+                raise vf.ToolError("DeferralMC produced no walks")
+            for wi, w in enumerate(walks):
+                conf = " ".join(f"{p}={','.join(k['gr'][p]) if k['gr'][p] else '-'}" for p in C11.PEERS)
+                f.write(f"seq {name}/{wi} {conf}\n")
+                nwalks += 1
+                for stp in w:
+                    o = stp["op"]
+                    if o["k"] == "est":
+                        f.write(f"est {o['p']} {','.join(sorted(o['fams'])) or '-'}\n")
+                    elif o["k"] == "eor":
+                        f.write(f"eor {o['p']} {o['f']}\n")
+                    elif o["k"] == "withdrawn":
+                        f.write(f"withdrawn {o['p']}\n")
+                    elif o["k"] == "timer":
+                        f.write("timer\n")
+                    else:
+                        f.write(f"route {o['f']} {o['x']}\n")
+                    exp.append((f"{name}/{wi}", stp, k))
+    if os.path.exists(outp):
+        os.remove(outp)
+    rc, out = vf.daemon_test("event::verif_harness::deferral_glue_replay", env={"VERIF_IN": inp, "VERIF_OUT": outp}, timeout=1800)
+    if rc != 0 or not os.path.exists(outp):
+        raise vf.ToolError(f"deferral_glue_replay failed rc={rc}: {out[-2000:]}")
+    got = vf.read_jsonl(outp)
+    if len(got) != len(exp):
+        raise vf.ToolError(f"deferral_glue_replay: {len(got)} results for {len(exp)} steps")
+    seen = set()
+    failed = set()
+    hist = {}
+    for (sid, stp, k), g in zip(exp, got):
+        hist.setdefault(sid, []).append(stp["op"])
+        if sid in failed:
+            continue
+        if g["note"]:
+            raise vf.ToolError(f"deferral_glue_replay could not drive a step: {g['note']}")
+        post = stp["post"]
+        bad = None
+        if g["machine"]["st"] != post["st"] or {p: sorted(v) for p, v in g["machine"]["pending"].items()} != {p: sorted(v) for p, v in post["pending"].items()}:
+            bad = ("machine", f"model {post['st']} {post['pending']}, real {g['machine']}")
+        elif g["restarting"] != post["restarting"]:
+            bad = ("restarting", f"model restarting={post['restarting']}, Global.selection_deferral is {'set' if g['restarting'] else 'cleared'}")
+        elif g["timer"] != post["timer"]:
+            bad = ("timer", f"model timer={post['timer']}, real selection-deferral timer running={g['timer']}")
+        else:
+            for fam_, m in post["ann"].items():
+                for x, n in m.items():
+                    real = min(2, g["ann"].get(f"{fam_}/{x}", 0))
+                    if real != n:
+                        bad = ("announced", f"{fam_}/{x}: model announced {n} time(s), real {g['ann'].get(f'{fam_}/{x}', 0)}")
+        if bad:
+            failed.add(sid)
+            sig = (bad[0], stp["op"]["k"])
+            if sig not in seen:
+                seen.add(sig)
+                c.violation("glue." + bad[0], {"what": bad[1], "op": stp["op"], "history": hist[sid][-12:], "config": k},
+                            {"spec": "Deferral", "config": k, "ops": list(hist[sid])})
+    c.cov["parts"]["driver-glue"] = {"behaviours": nwalks, "steps": len(exp)}
+    c.cov["evaluations"] += len(exp)
+    c.cov["traces_validated_against_impl"] += nwalks
+    c.assumptions.append("driver glue: PeerEstablished / EorReceived enter through process_effects of a test session object of that peer, "
+                         "PeerWithdrawn through a real connection that ends before the OPEN exchange; the selection-deferral timer is "
+                         "hours long and its expiry is injected by calling its handler")
 
 
 def gr_glue(c):
@@ -100,7 +179,7 @@ def gr_glue(c):
     import C10
     reasons = ["io", "remote_cease", "remote_hard_reset", "remote_noncease", "local_noncease", "admin", "admin_down_flag"]
     thorough = c.tier == "thorough"
-    cfg = C10.write_cfg("C10.glue.cfg", ["v4", "v6"], [1], reasons, "GenSpec", ["EmitEdge"])
+    cfg = C10.write_cfg("C10.glue.cfg", ["v4", "v6"], [1], reasons, "GenSpec", ["EmitEdge"], comms="{FALSE, TRUE}")
     r = vf.tlc(C10.SPEC, "GrHelperMC", cfg, workers=4, timeout=900, want_edges=True)
     edges = r.edges
     init = None
@@ -116,18 +195,20 @@ def gr_glue(c):
         p, o = e["pre"], e["op"]
         marked = any(r["st"] or r["ll"] for rs in p["routes"].values() for r in rs)
         fresh = any(not (r["st"] or r["ll"]) for rs in p["routes"].values() for r in rs)
+        # a re-announced route that itself carries the LLGR_STALE community must survive every purge
+        freshc = any(not (r["st"] or r["ll"]) and r.get("c") for rs in p["routes"].values() for r in rs)
         ok = dict(o)
-        for f in ("x", "n"):
+        for f in ("x", "n", "c"):
             ok.pop(f, None)
         for f in ("gr", "llgr"):
             if f in ok:
                 ok[f] = len(ok[f])
         return (p["gr"]["st"], len(p["gr"]["fams"]), len(p["gr"]["llgr"]), p["gr"]["fl"], p["rt"], len(p["lt"]),
-                p["sess"], len(p["sgr"]), len(p["sllgr"]), p["nbit"], marked, fresh, vf.canon(ok))
+                p["sess"], len(p["sgr"]), len(p["sllgr"]), p["nbit"], marked, fresh, freshc, vf.canon(ok))
     if thorough:
         targets, nclass = None, None
     else:
-        targets, nclass = vf.pick_targets(edges, klass, extra=800, seed=c.seed)
+        targets, nclass = vf.pick_targets(edges, klass, extra=250, seed=c.seed)
     seqs, covered, total = vf.cover_sequences(edges, init_key=init, max_len=40, seed=c.seed, targets=targets)
     inp = os.path.join(vf.WORK, "C10.ev.in")
     outp = os.path.join(vf.WORK, "C10.ev.out")
@@ -140,7 +221,7 @@ def gr_glue(c):
         if k == "establish":
             return f"establish {fs(op['gr'])} {fs(op['llgr'])} {1 if op['nbit'] else 0}"
         if k == "announce":
-            return f"announce {op['f']} {op['x']} {1 if op['n'] else 0}"
+            return f"announce {op['f']} {op['x']} {1 if op['n'] else 0} {1 if op.get('c') else 0}"
         if k == "withdraw":
             return f"withdraw {op['f']} {op['x']}"
         if k in ("eor", "llgrtimer"):
